@@ -94,6 +94,23 @@ fn check_script(bytes: &[u8], base_log: &[Event], base_res_code: u32, script: &[
         Ok(r) => r,
         Err(pi) => return mk("panic", pi.locus(), pi.detail()),
     };
+    // the word-slice entry point drives the consumer in exactly the same way
+    if let Some(w) = gb.words() {
+        let mut rec2 = Recorder::new(script.to_vec(), bytes.len() / 4 + 8);
+        let res2 = match guarded(|| rspirv::binary::parse_words(w, &mut rec2)) {
+            Ok(r) => r,
+            Err(pi) => return mk("panic", format!("parse_words {}", pi.locus()), pi.detail()),
+        };
+        cov.hit("reached.parse_words_twin");
+        if rec2.log != rec.log || result_code(&res2) != result_code(&res) {
+            let k = rec.log.iter().zip(rec2.log.iter()).position(|(a, b)| a != b).unwrap_or(rec.log.len().min(rec2.log.len()));
+            return mk(
+                "entry-points-agree",
+                format!("at={}", match rec.log.get(k) { Some(Event::Init) => "initialize", Some(Event::Header(..)) => "header", Some(Event::Inst(_)) => "instruction", Some(Event::Finalize) => "finalize", None => "end" }),
+                format!("parse_words made {} callbacks and returned {:?}; parse_bytes on the same binary and script made {} and returned {:?}; first difference at callback #{}", rec2.log.len(), res2.as_ref().err().map(|e| format!("{:?}", e)), rec.log.len(), res.as_ref().err().map(|e| format!("{:?}", e)), k),
+            );
+        }
+    }
     cov.hit("steps");
     cov.add("callbacks", rec.log.len() as u64);
     // first deviation of the script that is actually reachable
